@@ -60,13 +60,23 @@ MIN_COUNTERS = {
               "zero_blocks_checked": 1400, "executed_values_checked": 3200, "unrequested_blocks_checked": 130,
               "cases_chain": 190, "cases_par": 58, "cases_add": 50, "cases_mdachain": 75, "cases_nested": 200,
               "cases_returning_sparse_blocks": 200, "cases_returning_op_blocks": 125, "cases_with_overwritten": 16,
-              "symbolic_cases_judged": 24, "symbolic_blocks_checked": 130, "directed_cases": 18},
+              "symbolic_cases_judged": 24, "symbolic_blocks_checked": 130, "directed_cases": 24,
+              "cases_overwrite_stratum": 55, "cases_requesting_only_inputs_the_overwriting_discipline_ignores": 35,
+              "cases_requesting_only_inputs_of_the_overwriting_discipline": 20,
+              "cases_pruned_overwriter_with_live_earlier_producer_and_later_reader": 8,
+              "requests_pruning_the_last_producer_of_an_overwritten_variable": 45,
+              "later_requests_pruning_the_last_producer_of_an_overwritten_variable": 18},
     "thorough": {"linearizations_judged": 11000, "successive_requests_judged": 6000, "blocks_checked": 60000,
                  "zero_blocks_checked": 22000, "executed_values_checked": 50000, "unrequested_blocks_checked": 2200,
                  "cases_chain": 3200, "cases_par": 1000, "cases_add": 800, "cases_mdachain": 1200, "cases_nested": 3300,
                  "cases_returning_sparse_blocks": 3400, "cases_returning_op_blocks": 2100,
                  "cases_with_overwritten": 200, "symbolic_cases_judged": 220, "symbolic_blocks_checked": 1400,
-                 "directed_cases": 18},
+                 "directed_cases": 24, "cases_overwrite_stratum": 900,
+                 "cases_requesting_only_inputs_the_overwriting_discipline_ignores": 500,
+                 "cases_requesting_only_inputs_of_the_overwriting_discipline": 300,
+                 "cases_pruned_overwriter_with_live_earlier_producer_and_later_reader": 120,
+                 "requests_pruning_the_last_producer_of_an_overwritten_variable": 650,
+                 "later_requests_pruning_the_last_producer_of_an_overwritten_variable": 280},
 }
 SHARD_TIMEOUT = {"quick": 500, "thorough": 3000}
 
